@@ -74,6 +74,8 @@ def jobs(tier):
                       tier))
         J.append(_cfg('condmixed-N2-M2', 2, 2, 3, 'const', 'mixed', tier))
         J.append(_cfg('g0-condconst-N2', 2, 2, 3, 'const', 'const', tier, g0=3))
+        J.append(_cfg('emitstep-N2', 2, 2, 3, 'const', 'none', tier,
+                      emit_step=3))
         # off-grid run lengths with a precision: concrete dyadic intervals
         for N in (0, 1, 2):
             J.append(_cfg('offgrid-p0-N%d' % N, N, 2, 3, 'const', 'none', tier,
@@ -95,6 +97,12 @@ def jobs(tier):
         J.append(_cfg('condfresh-N2', 2, 2, 3, 'const', 'fresh', tier))
         J.append(_cfg('condfresh-adaptive-N2', 2, 1, 3, 'adaptive', 'fresh',
                       tier))
+        J.append(_cfg('condmixed-N2-M3', 2, 3, 3, 'const', 'mixed', tier))
+        J.append(_cfg('g0-condconst-N2', 2, 3, 3, 'const', 'const', tier, g0=5))
+        J.append(_cfg('emitstep-N2', 2, 3, 3, 'const', 'none', tier,
+                      emit_step=4))
+        J.append(_cfg('emitstep-condfresh-N2', 2, 2, 3, 'const', 'fresh', tier,
+                      emit_step=3))
         for N in (0, 1, 2):
             J.append(_cfg('offgrid-p0-N%d' % N, N, 3, 3, 'const', 'none', tier,
                           precision=0, ts_grid=[1, 2, 3],
